@@ -410,7 +410,7 @@ R("C08", "new-private-helper-new-name", BASE, "    def copy(self):\n        retu
 # ---- wave p: the offset core (C02, C20) and the time core on C15
 M("C02", "orbitframe-origin-own-scale-clock", "beyond/propagators/kepler.py", "        delta_t = (date - self.orbit.date).total_seconds()", "        delta_t = (date.mjd - self.orbit.date.mjd) * 86400.0", "DEP")
 M("C20", "body-offset-velocity-step", "beyond/env/solarsystem.py", "        x[3:] = (x1[:3] - x0[:3]) / (2 * cls._diff_step.total_seconds())", "        x[3:] = (x1[:3] - x0[:3]) / cls._diff_step.total_seconds()", "DEP")
-M("C15", "date-unpickled-without-eop", DATE, '        super().__setattr__("eop", state["eop"])', '        super().__setattr__("eop", EopDb.get(self._mjd))', "DEP")
+M("C15", "date-unpickled-without-eop", DATE, '        super().__setattr__("eop", state["eop"])', '        super().__setattr__("eop", EopDb.get(self._mjd))', "R15.4")
 R("C20", "body-offset-comment", "beyond/env/solarsystem.py", "        x[3:] = (x1[:3] - x0[:3]) / (2 * cls._diff_step.total_seconds())", "        # central difference\n        x[3:] = (x1[:3] - x0[:3]) / (2 * cls._diff_step.total_seconds())")
 R("C15", "date-setstate-local", DATE, '        super().__setattr__("eop", state["eop"])', '        eop = state["eop"]\n        super().__setattr__("eop", eop)')
 
@@ -422,3 +422,4 @@ CORPUS.setdefault("C16", []).append(("coelliptic-mutable-default-handed-on", "fi
     ("beyond/utils/cwhelper.py", "    def coelliptic(self, date, radial, tangential):", "    def coelliptic(self, date, radial, tangential, maneuvers=[]):"),
     ("beyond/utils/cwhelper.py", "            propagator=self.propagator,\n        )\n\n    def hohmann_distance", "            propagator=self.propagator,\n            maneuvers=maneuvers,\n        )\n\n    def hohmann_distance"),
 ], "SIG"))
+M("C15", "date-pickled-own-scale-day", DATE, '            "d": self._d,\n', '            "d": self.d,\n', "R15.4")
